@@ -671,6 +671,9 @@ Section Interp.
             bindF (ev e x) (fun e r =>
               match r with
               | RV (VStruct _ fs) => match lookup f fs with Some v => Some (Norm e (RV v)) | None => None end
+              | RV (VTuple vs) =>                                  (* `.0` / `.1` of a tuple value *)
+                  match (if f =s "0" then nth_error vs 0 else if f =s "1" then nth_error vs 1 else None) with
+                  | Some v => Some (Norm e (RV v)) | None => None end
               | _ => match as_place e r with Some p => Some (Norm e (RP (PFld p f))) | None => None end
               end)
         | EIndex x i =>
@@ -690,6 +693,14 @@ Section Interp.
                   | None => None
                   end
               | Some p, Some vi => match to_nat vi with Some k => Some (Norm e (RP (PIdx p k))) | None => None end
+              | None, Some (VRange lo hi) =>                       (* a sub-slice of a slice value, e.g. `x.get_in()[..n]` *)
+                  match r with
+                  | RV (VBlk b) =>
+                      let lo := match lo with Some a => a | None => 0 end in
+                      let hi := match hi with Some c => c | None => length b end in
+                      if le_ok lo hi && le_ok hi (length b) then Some (Norm e (RV (VBlk (firstn (hi - lo) (skipn lo b))))) else None
+                  | _ => None
+                  end
               | _, _ => None
               end))
         | ERange lo hi incl =>
@@ -849,12 +860,41 @@ Section Interp.
             bindF (ev e recv) (fun e r =>
               match eval_list ev e args with
               | inl (Some (e, rs)) =>
-                  if is_identity_method m then
+                  if (m =s "try_into") && (match lookup "try_into::LEN" (consts C) with Some _ => true | None => false end) then
+                    (* `slice.try_into()` to an array whose length the context fixes: the unwrap that follows panics on any other length *)
+                    match as_data e r, lookup "try_into::LEN" (consts C), rs with
+                    | Some (VBlk b), Some (VNat k), [] => if len_eq (length b) k then Some (Norm e (RV (VBlk b))) else None
+                    | _, _, _ => None
+                    end
+                  else if is_identity_method m then
                     match rs with [] => Some (Norm e r) | _ => None end
                   else if m =s "clone" then                      (* a copy of the data, never an alias *)
                     match rs, as_data e r with [], Some v => Some (Norm e (RV v)) | _, _ => None end
                   else if m =s "get_out" then
                     match as_place e r, rs with Some p, [] => Some (Norm e (RP (POut p))) | _, _ => None end
+                  else if m =s "last_mut" then                   (* `slice_of_blocks.last_mut()`, always followed by unwrap: None = panic *)
+                    match as_place e r, rs with
+                    | Some p, [] =>
+                        match rd e p with
+                        | Some (VBlks l) => if in_range 0 (length l) then Some (Norm e (RV (VRef (PIdx p (length l - 1))))) else None
+                        | _ => None
+                        end
+                    | _, _ => None
+                    end
+                  else if m =s "split_at" then                   (* InOutBuf::split_at on blocks or on bytes *)
+                    match as_place e r, data_of e rs with
+                    | Some p, Some [vk] =>
+                        match to_nat vk, rd e p with
+                        | Some k, Some (VCells cs) =>
+                            if le_ok k (length cs)
+                            then Some (Norm e (RV (VTuple [VRef (PCells p 0 k); VRef (PCells p k (length cs - k))]))) else None
+                        | Some k, Some (VBuf _ _ o) =>
+                            if le_ok k (length o)
+                            then Some (Norm e (RV (VTuple [VRef (PBytes p 0 k); VRef (PBytes p k (length o - k))]))) else None
+                        | _, _ => None
+                        end
+                    | _, _ => None
+                    end
                   else if m =s "get" then
                     match as_place e r, data_of e rs with
                     | Some p, Some [vi] => match to_nat vi with Some k => Some (Norm e (RP (PGet p k))) | None => None end
